@@ -493,6 +493,45 @@ impl<T: ClusterKey> TopologyManager<T> {
     }
 }
 
+/// Re-exports of private placement helpers for the external verification harness (replay runner).
+/// Compiled only with `--cfg sierra_db_sierradb_verif`; adds no behaviour.
+#[cfg(sierra_db_sierradb_verif)]
+pub mod verif_hooks {
+    use super::*;
+
+    pub fn calculate_assigned_partitions<T: ClusterKey>(
+        node_index: usize,
+        total_node_count: usize,
+        num_partitions: u16,
+        bucket_count: u16,
+        replication_factor: u8,
+    ) -> HashSet<PartitionId> {
+        TopologyManager::<T>::calculate_assigned_partitions(
+            node_index,
+            total_node_count,
+            num_partitions,
+            bucket_count,
+            replication_factor,
+        )
+    }
+
+    pub fn calculate_partition_replicas<T: ClusterKey>(
+        partition_id: PartitionId,
+        bucket_count: u16,
+        total_node_count: usize,
+        replication_factor: u8,
+        known_nodes: &HashMap<usize, T>,
+    ) -> ArrayVec<T, MAX_REPLICATION_FACTOR> {
+        TopologyManager::<T>::calculate_partition_replicas(
+            partition_id,
+            bucket_count,
+            total_node_count,
+            replication_factor,
+            known_nodes,
+        )
+    }
+}
+
 #[cfg(test)]
 mod replica_manager_tests {
     use kameo::actor::ActorId;
